@@ -936,11 +936,15 @@ def main():
     chk = Check(PID)
     thorough = chk.tier == 'thorough'
     L = 4 if thorough else 3
-    chk.bound(histories='all operation sequences of length <= %d over a 9-letter alphabet on one orbit object, symbolic periods / tolerances (every equality pattern explored by the solver)' % L,
-              keys='three argument shapes used at the call sites, 3 symbolic leaves each')
-    chk.assume('propagation, monodromy/STM, eigen-analysis and the corrector are uninterpreted functions of all logical inputs they read')
+    chk.bound(histories='all operation sequences of length <= %d: orbit services (12 operations), centre-manifold service (8), manifold service (10), libration-point service (10, incl. '
+                        're-targeting a centre manifold the point handed out); symbolic periods, states, steps, tolerances, energies and (integer-declared) degrees: every equality pattern explored by the solver' % L,
+              keys='three argument shapes used at the call sites, 3 symbolic leaves each', state_dimension=2)
+    chk.assume('propagation, monodromy/STM, eigen-analysis, the corrector and continuation pipelines, the Hamiltonian pipeline, the map constructor and the manifold computation are uninterpreted functions of '
+               'all logical inputs they read, with functional-consistency axioms',
+               'orbit services: the reference is a hand-written fresh-object model; centre-manifold, manifold and libration-point services: the reference is a second instance of the REAL class put into the same logical state',
+               'id() and hashes of stand-in objects are deterministic (re-execution determinism is checked by the explorer)')
     chk.out_of_scope('save/load round trips (pickle / HDF5 / file I/O: no symbolic content -- not decided by this family)', 'process-wide compiled-function caches keyed by id() (object identity and garbage collection are not modelled)',
-                     'manifold, torus and system-level caches beyond their key construction')
+                     'torus and system-level caches; histories interleaving more than one orbit with one manifold')
     key_builder(chk)
     if thorough:
         orbit_histories(chk, 4, ['P0', 'P1', 'R5', 'R9', 'M', 'S', 'E', 'T', 'C0', 'C1', 'K', 'G0'], 'all')
